@@ -45,6 +45,8 @@ type irEvent struct {
 
 func init() { register("ir", irHandler) }
 
+func foldExpr(e expr.Expr) expr.Expr { return exprtransform.ConstFold(e) }
+
 func gadget(name string, a []expr.Expr, w expr.Width, bit int) expr.Expr {
 	switch name {
 	case "Negate":
